@@ -1,6 +1,12 @@
 """C15 — fit_to_data never loses, duplicates or misaligns data.
 
-Tie to the code (hand-written model `lean/Flowjaxv/Model/Train.lean`: `fitData`, `trainValSplit`, `addBatch`,
+Two ties to the code.  (1) REGENERATION: `tools/py2lean/py2loop.py` translates `_add_batch`, `get_batches`, `train_val_split`, `step`
+and `fit_to_data` from the source into `lean/Flowjaxv/Gen/TrainGen.lean` on every run (a refusal is a broken tie); `Props/C15.lean`
+proves the generated functions equal to the hand model for all inputs (`gen_*` theorems); and the generated definitions are RUN
+here against the real ones: `gaddbatch` / `gbatches` / `gsplit` (all n <= 40 x val_prop grid x batch sizes incl. > n, real
+permutations) and `gfitdata` (the generated `fit_to_data` in a recording world: every loss value is an injective code of the call
+that produced it, so the returned loss lists spell out every call — compared call by call with the real run).
+(2) CORRESPONDENCE of the hand-written model `lean/Flowjaxv/Model/Train.lean`: `fitData`, `trainValSplit`, `addBatch`,
 `epochLoop`, key paths): the REAL `fit_to_data` is run with index-tagged rows (`x[i] = i`, `condition[i] = i + 1000`)
 and a recording `loss_fn` that stores, for every call, the concrete rows of both arrays, the key, and whether the call
 happens inside `step` (gradient update) or is a plain validation evaluation.  The model's key schedule (paths in the
@@ -25,16 +31,22 @@ import vlib
 from vlib import f2b, ints
 
 ID = "C15"
-GEN = []
+GEN = ["TrainGen"]
 RULE = ("configs = n in {2..12,17,31,60} x batch_size in {1,2,3,n//2,n,n+5} x val_prop in {0.1,0.25,0.5,0.9} (both parts non-empty) "
         "x with/without condition x 1..4 epochs x row shape in {(n,),(n,1),(n,2)} x key flavour (typed / raw uint32), quick = a "
         "seeded sample of the grid, thorough = the whole grid plus 300 random (n in 2..60, batch_size in 1..n+5, val_prop) points; every call of loss_fn compared (rows of x, rows of condition, key, "
         "train-step vs validation, order) with the model run on the permutations JAX drew for the model's key paths; plus the "
         "degenerate configs (empty part, batch_size 0: ZeroDivisionError <-> model `none`), the n_val rounding "
         "(half-to-even on the float product) and _add_batch/train_val_split alone; a case is non-trivial when a remainder is "
-        "dropped, or there are >= 2 batches, or >= 2 epochs; distinct = distinct (n, batch, val_prop, condition, epochs, shape, seed, mode)")
+        "dropped, or there are >= 2 batches, or >= 2 epochs; distinct = distinct (n, batch, val_prop, condition, epochs, shape, seed, mode); "
+        "the GENERATED definitions (Gen/TrainGen.lean) are evaluated against the real ones on n in 1..40 x 11 batch sizes (one and two arrays), "
+        "n in 1..40 x 18 val_prop values incl. out-of-range (rows, sizes, ValueError), and on every whole run (all calls, recording world)")
 TRUSTED = [
     "Lean 4.33 kernel; axioms propext, Classical.choice, Quot.sound (core Lean only)",
+    "tools/py2lean/py2loop.py + typing sheet targets_train.py (statement-by-statement translation of flowjax/train/*.py; refuses what it "
+    "does not understand) and the library primitives of Model/TrainWorld.lean (Python int = Int with floor division and negative slices, "
+    "reshape = chunks, zip(*…, strict=True) = transpose, jr.split = child paths, jr.permutation(key, a) = a[perm(key, len a)], "
+    "round = half-to-even on the float product) — validated on every run by evaluating the generated definitions against the real ones",
     "Model/Train.lean (fitData, trainValSplit, addBatch, epochLoop, key paths) is hand-written; this correspondence is its tie to "
     "flowjax/train/data_fit.py and train_utils.py",
     "jr.permutation(key, a) == a[jr.permutation(key, len(a))] for every array a (observed on every run: both data arrays and the "
@@ -184,6 +196,7 @@ class KeyTree:
 def model_trace(n, b, n_val, epochs, seed, raw):
     """key schedule from the model -> real keys -> the permutations JAX draws -> the model's trace on them"""
     sched = parse_run(vlib.run_model([f"fitdata {n} {b} {n_val} {epochs}"])[0])
+    model_trace.perms = None
     if sched is None:
         return None, None
     kt = KeyTree(root_key(seed, raw))
@@ -192,7 +205,91 @@ def model_trace(n, b, n_val, epochs, seed, raw):
         perms.append([int(v) for v in jr.permutation(kt.get(ep["tk"]), n - n_val)])
         perms.append([int(v) for v in jr.permutation(kt.get(ep["vk"]), n_val)])
     run = parse_run(vlib.run_model([f"fitdata {n} {b} {n_val} {epochs} " + " ".join(ints(p) for p in perms)])[0])
+    model_trace.perms = perms
     return run, kt
+
+
+ENC_BASE = 1 << 20
+if hasattr(__import__("sys"), "set_int_max_str_digits"):
+    __import__("sys").set_int_max_str_digits(0)   # the codes of the recording world are integers with thousands of digits
+
+
+def dec_digits(n):
+    out = []
+    while n:
+        out.append(n % ENC_BASE - 1)
+        n //= ENC_BASE
+    return out
+
+
+def dec_call(d):
+    """[tag, params, 2|key|, key…, #arrays, |a0|, a0…, …] -> (is_train, params, key path string, [rows of each array])"""
+    tag, params, k2 = d[0], d[1], d[2]
+    key = d[3:3 + k2]
+    j = 3 + k2
+    narr = d[j]
+    j += 1
+    arrays = []
+    for _ in range(narr):
+        ln = d[j]
+        arrays.append(d[j + 1:j + 1 + ln])
+        j += 1 + ln
+    assert j == len(d), (d, j)
+    path = "/".join(["r"] + [f"{key[i]}.{key[i + 1]}" for i in range(0, k2, 2)])
+    return bool(tag), params, path, arrays
+
+
+def dec_epoch(code):
+    d, i, calls = dec_digits(code), 0, []
+    while i < len(d):
+        ln = d[i]
+        calls.append(dec_call(d[i + 1:i + 1 + ln]))
+        i += 1 + ln
+    return calls
+
+
+def generated_calls(n, b, vp, epochs, cond, perms, kt):
+    """every call the GENERATED fit_to_data makes (recording world), as the flat list the real loss_fn should see;
+    also checks the parameter version of every call (train call j overall: j updates; validation calls: all updates of the epoch)"""
+    out = vlib.run_model([f"gfitdata {n} {b} {f2b(vp)} {epochs} {int(cond)} " + " ".join(ints(p) for p in perms)])[0]
+    if not out.startswith("OK"):
+        return None, out
+    toks = out.split(" ")
+    tr = [] if toks[2] == "-" else [int(v) for v in toks[2].split(",")]
+    va = [] if toks[3] == "-" else [int(v) for v in toks[3].split(",")]
+    if len(tr) != epochs or len(va) != epochs:
+        return None, f"{len(tr)} train / {len(va)} validation losses for {epochs} epochs"
+    flat, updates = [], 0
+    for e in range(epochs):
+        for is_tr, params, path, arrays in dec_epoch(tr[e]):
+            if not is_tr or params != updates:
+                return None, f"epoch {e}: step call with parameters {params}, expected {updates} (train={is_tr})"
+            updates += 1
+            flat.append((True, arrays, kt.data(path)))
+        for is_tr, params, path, arrays in dec_epoch(va[e]):
+            if is_tr or params != updates:
+                return None, f"epoch {e}: validation call with parameters {params}, expected {updates} (train={is_tr})"
+            flat.append((False, arrays, kt.data(path)))
+    if int(toks[1]) != updates:
+        return None, f"returned parameters after {toks[1]} updates, {updates} step calls"
+    return flat, updates
+
+
+def compare_gen_calls(calls, gen, cond):
+    if len(calls) != len(gen):
+        return f"{len(calls)} calls, generated {len(gen)}"
+    for j, ((is_tr, xa, ca, kd), (g_tr, arrays, g_key)) in enumerate(zip(calls, gen)):
+        if is_tr != g_tr:
+            return f"call {j}: train-step={is_tr}, generated {g_tr}"
+        if len(arrays) != (2 if cond else 1):
+            return f"call {j}: generated passes {len(arrays)} arrays"
+        if tags(xa) != arrays[0]:
+            return f"call {j}: x rows {tags(xa)}, generated {arrays[0]}"
+        if cond and tags(ca) != arrays[1]:
+            return f"call {j}: condition rows {tags(ca)}, generated {arrays[1]}"
+        if kd != g_key:
+            return f"call {j}: key {kd}, generated path gives {g_key}"
+    return None
 
 
 def expected_calls(run, kt):
@@ -274,11 +371,51 @@ def corr(c, tier, rng):
             impl = "ok"
         except ZeroDivisionError:
             impl = "NONE"
-        out = vlib.run_model([f"addbatch {b} {n}"])[0]
+        out, gout = vlib.run_model([f"addbatch {b} {n}", f"gaddbatch {b} {n}"])
         c.case(("addbatch-degenerate", n, b), True)
         c.count("addbatch:degenerate")
         if out != impl:
             c.mismatch("add_batch", op=f"addbatch {b} {n}", model=out, impl=impl)
+        if gout != impl:
+            c.mismatch("gen:add_batch", op=f"gaddbatch {b} {n}", model=gout, impl=impl)
+    # ---- 2b. the GENERATED _add_batch / get_batches: all n <= 40 x batch sizes (incl. batch_size > n), one and two arrays
+    lines, wants = [], []
+    for n in range(1, 41):
+        for b in sorted({1, 2, 3, 5, 7, max(n // 2, 1), max(n - 1, 1), n, n + 1, n + 5, 2 * n}):
+            x, cnd = jnp.arange(n), jnp.arange(n) + 1000
+            gx, gc = get_batches((x, cnd), b)
+            lines.append(f"gaddbatch {b} {n}")
+            wants.append("|".join(ints(r) for r in np.asarray(gx).tolist()))
+            lines.append(f"gbatches {b} {n}")
+            wants.append("0 " + " / ".join("|".join(ints(r) for r in np.asarray(g).tolist()) for g in (gx, gc)))
+            c.case(("gen-addbatch", n, b), n % min(b, n) != 0)
+            c.count("generated:add_batch")
+    for line, out, want in zip(lines, vlib.run_model(lines), wants):
+        if out != want:
+            c.mismatch("gen:add_batch", op=line, model=out, impl=want)
+    # ---- 2c. the GENERATED train_val_split: all n <= 40 x val_prop grid, both arrays, the permutation JAX draws; sizes and rows
+    lines, wants = [], []
+    for n in range(1, 41):
+        for vp in VPS + [0.0, 1.0, 0.05, 0.15, 0.35, 0.45, 0.55, 0.3, 0.7, 0.125, 0.375, 0.65, -0.1, 1.5]:
+            key = jr.key(1000 + n)
+            x, cnd = jnp.arange(n), jnp.arange(n) + 1000
+            pi = [int(v) for v in jr.permutation(key, n)]
+            try:
+                (tx, tc), (vx, vc) = train_val_split(key, (x, cnd), val_prop=vp)
+                want = "0 " + " ".join(ints([int(v) for v in a]) for a in (tx, vx, tc, vc))
+                sizes = (len(tx), len(vx))
+            except ValueError:
+                want, sizes = "1", None
+            lines.append(f"gsplit {n} {f2b(vp)} {ints(pi)}")
+            wants.append((want, sizes, n, vp))
+            c.case(("gen-split", n, vp), (vp * n) % 1 == 0.5 or sizes is None)
+            c.count("generated:train_val_split")
+    for line, out, (want, sizes, n, vp) in zip(lines, vlib.run_model(lines), wants):
+        ok = out.startswith("1 ") if want == "1" else out == want
+        if ok and sizes is not None and sizes != (n - round(vp * n), round(vp * n)):
+            ok = False
+        if not ok:
+            c.mismatch("gen:train_val_split", op=line[:60], model=out[:200], impl=want[:200], n=n, val_prop=vp)
     for n in (2, 5, 10, 11):
         for vp in VPS + [0.0, 1.0]:
             key = jr.key(n)
@@ -337,6 +474,18 @@ def corr(c, tier, rng):
                 d = f"{updates} parameter updates, model has {sum(len(ep['T']) for ep in run['epochs'])} train calls"
             if d is not None:
                 c.mismatch("fit_to_data-dataflow", diff=d, **info)
+            # the GENERATED fit_to_data (recording world) on the same permutations: every call, in order
+            gen, gupd = generated_calls(n, b, vp, epochs, cond, model_trace.perms, kt)
+            c.count("generated:fit_to_data-runs")
+            if gen is None:
+                c.mismatch("gen:fit_to_data-dataflow", diff=gupd, **info)
+            else:
+                gd = compare_gen_calls(calls, gen, cond)
+                if gd is None and updates != float(gupd):
+                    gd = f"{updates} parameter updates, generated run has {gupd} step calls"
+                if gd is not None:
+                    c.mismatch("gen:fit_to_data-dataflow", diff=gd, **info)
+                c.count("generated:calls-compared", len(gen))
             c.count("calls-compared", len(calls))
             # determinism of the real run (same key -> same trace), on a subset
             if epochs >= 3 and ci % 4 == 0:
